@@ -3,7 +3,7 @@ from checks.raft_common import *
 
 META = dict(
     engine="coq+hx_raft",
-    technique="Coq: executable model of raft.rs; induction over the list of appended payloads on a symbolic steady state (one append round evaluated symbolically) for the oldest-first schedule; "
+    technique="Coq: executable model of raft.rs; induction over the list of appended payloads on a symbolic steady state (one append round evaluated / explored symbolically) for the oldest-first and the per-channel-FIFO schedules; "
               "vm_compute / reflective exhaustive exploration for the bounded statements; "
               "timed fault-free simulation of the real raft.rs under a virtual clock with the configured timeouts, replayed event by event on the extracted model",
     level_text="Machine-checked for the model, partial with respect to the full property (any cluster size, any fault-free schedule): the statements pinned in coq/Props/C30.v say that a fault-free run elects exactly one leader "
@@ -12,13 +12,17 @@ META = dict(
                "scripted action (node 0's election timer, one ClientAppend per payload, a final heartbeat round; the schedule is a relation without fuel or bound): node 0 is the only leader, all others its followers, every log is exactly "
                "the payloads in order in term 1, every commit index equals their number, nothing is in flight — proved by induction over the payload list with a steady-state invariant, for every revision of the election code; "
                "C30_fifo_unbounded_3_run / _5_run: such a run exists for every payload list and is the run of one explicit event list; C30_fifo_election_safety: with the repaired election code these runs never have two leaders in a term. "
-               "The partiality of (1): only sizes 3 and 5 (the round lemmas are proved per size), only the FIFO schedule, appends only when nothing is in flight. "
-               "(2) bounded statements: for 3 nodes EVERY interleaving of the deliveries of one script (election, two appends, a heartbeat round; reflective exhaustive exploration with a proved soundness lemma); 3 and 5 nodes FIFO with two appends. "
+               "(2) C30_channel_fifo_unbounded_3_partial: for 3 nodes, every number of appended entries and EVERY per-channel-FIFO interleaving of the deliveries of each round (messages between one pair of nodes in order, deliveries to different peers "
+               "in any order — one ordered queue per peer as in the real server), the same conclusion; the election round is covered for ALL interleavings (reflective exploration), the heartbeat round for ALL interleavings and an append round with symbolic log length / log / payload "
+               "for all per-channel-FIFO interleavings (tactic-driven exploration of the graph of symbolic states). "
+               "The partiality of (1) and (2): only sizes 3 and 5 resp. 3 (the round lemmas are proved per size, not for a symbolic size), appends only when nothing is in flight, and for an unbounded number of appends no interleaving in which a message "
+               "overtakes an older one of its own channel during an append round. "
+               "(3) bounded statements: for 3 nodes EVERY interleaving of the deliveries of one script (election, two appends, a heartbeat round; reflective exhaustive exploration with a proved soundness lemma); 3 and 5 nodes FIFO with two appends. "
                "On the real code every run simulates healthy 3- and 5-node clusters with the configured timeouts (virtual clock, several tick granularities and message latencies, "
                "1-6 client appends), requires convergence to one leader with equal, fully committed logs, and replays the recorded event list on the extracted model comparing the "
                "complete cluster state after every event.",
     design_ref="DESIGN.md §5 C30, C27–C30 common",
-    level_note="Liveness for arbitrary cluster sizes and arbitrary fault-free schedules is not proved (partial): unbounded number of appends only for 3 and 5 nodes under FIFO delivery; all interleavings only for 3 nodes and two appends. "
+    level_note="Liveness for arbitrary cluster sizes and arbitrary fault-free schedules is not proved (partial): unbounded number of appends only for 3 and 5 nodes under FIFO delivery and for 3 nodes under per-channel-FIFO interleaving; all interleavings only for 3 nodes and two appends. "
                "Real timers, HTTP transport and tokio scheduling are replaced by the virtual clock and an in-order network.",
 )
 
